@@ -37,6 +37,7 @@ func checkC14(c *Ctx) {
 	c.writerCriticalSpan()
 	c.ringMemorySafety()
 	c.ringPositions()
+	c.ringSpaceAccounting()
 }
 
 // roleDisjoint: no location the wait predicates depend on is written by both sides.
@@ -393,7 +394,25 @@ func (c *Ctx) ringMemorySafety() {
 	if !established {
 		return
 	}
+	c.ringInvOK, c.ringMin = true, minSize
 	// (3) bounds of every access in the ring's code under the invariant
+	an := c.ringAnalyzer()
+	var entries []*ssa.Function
+	for _, fn := range c.P.Funcs {
+		if fn.Pkg == nil || fn.Pkg.Pkg.Path() != pkgService || fn.Parent() != nil || fn == ctor {
+			continue
+		}
+		if recvNamed(fn) == "buffer" {
+			entries = append(entries, fn) // ringCopy is analysed in the context of its callers
+		}
+	}
+	c.ringMemorySafetyRest(an, entries)
+}
+
+// ringAnalyzer: engine B with the ring's size invariant (established by the constructor, see ringMemorySafety)
+// and the documented precondition of the producer-side calls.
+func (c *Ctx) ringAnalyzer() *bounds.Analyzer {
+	minSize := c.ringMin
 	an := bounds.NewAnalyzer(c.P)
 	an.Invariant = func(a *bounds.Analyzer, st *bounds.State, owner, field, obj string) (bounds.AVal, bool) {
 		if owner != "service.buffer" {
@@ -415,7 +434,10 @@ func (c *Ctx) ringMemorySafety() {
 	}
 	// documented precondition of the producer-side calls: the byte count asked for is a length (their
 	// callers pass msg.Len(), len(p) or the block size); the consumer-side calls test n < 0 themselves
-	c.R.Trusted = append(c.R.Trusted, "WriteWait / WriteCommit / waitForWriteSpace are called with n >= 0 (a length)")
+	if !c.ringTrustNoted {
+		c.ringTrustNoted = true
+		c.R.Trusted = append(c.R.Trusted, "WriteWait / WriteCommit / waitForWriteSpace are called with n >= 0 (a length)")
+	}
 	an.EntryAssume = func(a *bounds.Analyzer, st *bounds.State, fn *ssa.Function, args []bounds.AVal) {
 		switch fn.Name() {
 		case "WriteWait", "WriteCommit", "waitForWriteSpace":
@@ -426,15 +448,10 @@ func (c *Ctx) ringMemorySafety() {
 			}
 		}
 	}
-	var entries []*ssa.Function
-	for _, fn := range c.P.Funcs {
-		if fn.Pkg == nil || fn.Pkg.Pkg.Path() != pkgService || fn.Parent() != nil || fn == ctor {
-			continue
-		}
-		if recvNamed(fn) == "buffer" {
-			entries = append(entries, fn) // ringCopy is analysed in the context of its callers
-		}
-	}
+	return an
+}
+
+func (c *Ctx) ringMemorySafetyRest(an *bounds.Analyzer, entries []*ssa.Function) {
 	sort.Slice(entries, func(i, j int) bool { return fname(entries[i]) < fname(entries[j]) })
 	for _, fn := range entries {
 		an.Run(fn)
